@@ -1774,6 +1774,15 @@ class SQLModel:
                 )
         # TODO: put common sub-expression control object here and pass into converters
         temp_id_source = [0]
+        # generated view names are <kind>_<n>: start numbering past any table that is itself named that way
+        for table_description in ops.get_tables().values():
+            view_like = re.match(
+                r"^(?:table_reference|extend|project|select_rows|order_rows|map_columns|rename|natural_join"
+                + r"|concat_rows|convert_records_blocks_in|convert_records_blocks_out)_([0-9]+)$",
+                table_description.table_name,
+            )
+            if view_like is not None:
+                temp_id_source[0] = max(temp_id_source[0], int(view_like.group(1)) + 1)
         near_sql = ops.to_near_sql_implementation_(
             db_model=self, using=None, temp_id_source=temp_id_source
         )
